@@ -11,19 +11,22 @@
     * `interfaces` name interface types, union members name object types, root types resolve;
     * dict keys (field, argument, input-field, enum-value names) are distinct GraphQL names;
     * directive locations are `DirectiveLocation` members;
-    * default values and enum values contain only finite floats (domain of the assumed law
-      `eval (repr c) = c`; graphql-core cannot print a source schema with a non-finite default either).
+    * default values and enum values contain only finite floats, i.e. float texts of the shape
+      `PyRepr.floatText` (what `repr` gives for a finite float; `inf`, `-inf`, `nan` are not) — the
+      domain of `C16.literal_roundtrip`; graphql-core cannot print a source schema with a non-finite
+      default either.
 
   Core Lean only (linked into the driver).
 -/
 import AriadneModel.Spec.PySchemaEval
+import AriadneModel.Model.PyRepr
 
 namespace Ariadne.SchemaWF
 open Ariadne.Schema Ariadne.SchemaGen Ariadne.PySchemaEval
 
 mutual
   def finitePV : PyVal → Bool
-    | .float r => !(r = "inf" || r = "-inf" || r = "nan")
+    | .float r => PyRepr.floatText r
     | .list xs => finiteList xs
     | .dict kvs => finiteKvs kvs
     | _ => true
